@@ -171,7 +171,7 @@ def plan(prop, tier):
     if prop == 'C13':
         return {'stages': group_stages(2 if q else 3, 'C13', 0.5 if q else 0.25), 'rule': RULE_GROUP, 'assumptions': ASSUME_COMMON}
     if prop == 'C16':
-        return {'stages': group_stages(2 if q else 2, 'C16', 0.1 if q else 0.6), 'rule': RULE_GROUP, 'assumptions': ASSUME_COMMON}
+        return {'stages': group_stages(2, 'C16', 0.08 if q else 0.5)[:3], 'rule': RULE_GROUP, 'assumptions': ASSUME_COMMON}
     if prop in ('C11', 'C12'):
         return {'stages': cors_stages(0.2 if q else 1.0, 0), 'rule': RULE_CORS, 'assumptions': ASSUME_COMMON}
     if prop == 'C08':
@@ -227,9 +227,9 @@ def p_c04(q):
 def p_c05(q):
     if q:
         return [mc_router('T'), gen_bfs('X', 2, sample=0.08), gen_bfs('B', 2, sample=0.15), gogen('bytes', 100), gogen('patterns', 1500, seedoff=2),
-                gogen('bytes', 60, fam='match', trace='Trace_Match', seedoff=3)]
+                gogen('patenum4', 0, name='go-patenum4'), gogen('bytes', 60, fam='match', trace='Trace_Match', seedoff=3)] + cors_stages(0.06, 0)[1:]
     return [mc_router('T'), gen_bfs('X', 2, sample=0.5), gen_bfs('B', 2), gen_bfs('A', 2, sample=0.5), gogen('bytes', 3000), gogen('mixed', 1000, seedoff=1),
-            gogen('patterns', 30000, seedoff=2), gogen('bytes', 1500, fam='match', trace='Trace_Match', seedoff=3)]
+            gogen('patterns', 30000, seedoff=2), gogen('patenum6', 0, name='go-patenum6'), gogen('bytes', 1500, fam='match', trace='Trace_Match', seedoff=3)] + cors_stages(0.5, 0)[1:]
 
 
 def p_c17(q):
